@@ -145,6 +145,29 @@ def check(prog, run, sizes=range(0, 17), widths=range(1, 73), npairs=2000, floor
             run.violation("L2-bytes-to-int-inverse", c, "result %r is not the big-endian integer of the bytes" % (p.outcome[1],),
                           file, b2i.node.lineno, b2i.qualname)
 
+        # the same bytes in the other forms a caller or a binding may hold them in: the result is the same number
+        if n in (1, 2, 3, 4, 8):
+            for form in ("bytes", "memoryview", "list", "tuple"):
+                def t2f(n=n, form=form):
+                    cells = [mem_byte("buf", (None, i)) for i in range(n)]
+                    if form == "list":
+                        arg = cells
+                    elif form == "tuple":
+                        arg = tuple(cells)
+                    else:
+                        arg = Buf(cells=cells)
+                        arg.pytype = form
+                    return I.call_function(b2i, [arg], {}, None, _F())
+                pf = single_path(I, t2f, "scsi_ba_to_int %s size %d" % (form, n))
+                valf = norm_int(pf.value) if pf.returned else None
+                goodf = isinstance(valf, Sym) and valf.bits is not None and tuple(valf.bits) + (0,) * (8 * n - len(valf.bits)) == tuple(want)
+                cf = "scsi_ba_to_int(<%d bytes as %s>)" % (n, form)
+                if goodf:
+                    run.ok("L2-bytes-to-int-inverse", cf, {"size": n})
+                else:
+                    run.violation("L2-bytes-to-int-inverse", cf, "given the bytes as a %s the result is %r, not their big-endian integer"
+                                  % (form, (repr(valf) if pf.returned else pf.raised.describe())[:160]), file, b2i.node.lineno, b2i.qualname)
+
         # round trip int -> bytes -> int
         def t3(n=n):
             ba = I.call_function(i2b, [Sym.param("x", 8 * n) if n else 0, n], {}, None, _F())
